@@ -100,6 +100,8 @@ def _bucket_key(e: Event) -> Optional[Term]:
     r = e.recv
     if r is not None and r[0] == "sub" and key(strip_ver(r[1])).endswith("expire_time_list"):
         return r[2]
+    if r is not None and r[0] == "call" and r[1][0] == "attr" and r[1][2] in ("setdefault", "get") and key(strip_ver(r[1][1])).endswith("expire_time_list") and r[2]:
+        return r[2][0]
     return None
 
 
@@ -140,34 +142,16 @@ def r4(ctx: Ctx) -> None:
         ok = len(dels) == 1 and not other and dels[0].name == "remove" and key(dels[0].args[0]) == "order" and poly_key(to_poly(_bucket_key(dels[0]), atom)) == want_key
         ctx.check(ok, f, dels[0].node if dels else f.node, "a removed order leaves exactly its own expiry bucket entry", "expire_time_list[placed_at + ttl].remove(order)",
                   "; ".join(f"{e.name}@[{short(_bucket_key(e))}]" for e in dels) + ("; whole-bucket/dict operation: " + ",".join(getattr(e, 'name', 'del') for e in other) if other else ""))
-    # reaping (both comprehensions of _check_expired_orders) and is_expired
+    # reaping: every filter that selects expired buckets (comprehension condition or loop decision)
     f = ctx.func("OrderBook._check_expired_orders")
-    comps = []
-    for p in ctx.paths(f.qualname):
-        for e in p.walk_events():
-            if e.kind == "call":
-                for t in [e.term] + list(e.args):
-                    for s in subterms(t):
-                        if s[0] == "comp" and any(key(strip_ver(g[1])).startswith("self.expire_time_list") for g in s[3]) and s not in comps:
-                            comps.append(s)
-            if e.kind == "loop" and e.iter is not None:
-                for s in subterms(e.iter):
-                    if s[0] == "comp" and any(key(strip_ver(g[1])).startswith("self.expire_time_list") for g in s[3]) and s not in comps:
-                        comps.append(s)
-    ctx.require(len(comps) >= 2, "_check_expired_orders: expected the two comprehensions over expire_time_list")
-    want_nf = ("<=0", "1*1 + key + -1*now")
-    for c in comps:
-        g = c[3][0]
-        conds = g[2]
-        ok = len(conds) == 1
-        nf = None
-        if ok:
-            try:
-                nf = nf_cmp(strip_ver(conds[0]), integer=True, atom=lambda t: {"key": "key", "self.time": "now"}.get(key(strip_ver(t)), key(strip_ver(t))))
-            except Unrecognised:
-                nf = None
-            ok = nf == want_nf
-        ctx.check(ok, f, f.node, f"reap filter of `{key(c[2])}` comprehension", "key < self.time  (key - now + 1 <= 0)", str(nf))
+    filters = _expiry_filters(ctx, f.qualname)
+    ctx.require(len(filters) >= 1, "_check_expired_orders: no test comparing the expiry keys with the book's clock was found")
+    for descr, cond in filters:
+        try:
+            nf = nf_cmp(cond, integer=True, atom=lambda t: "now" if key(strip_ver(t)) == "self.time" else ("key" if t[0] in ("bound", "sym") else key(strip_ver(t))))
+        except Unrecognised:
+            nf = None
+        ctx.check(nf == ("<=0", "1*1 + key + -1*now"), f, f.node, f"reap filter ({descr})", "key < self.time  (key - now + 1 <= 0)", str(nf))
     f = ctx.func("Order.is_expired")
     for p in ctx.paths(f.qualname):
         if p.exit[0] != "return" or p.exit[1][0] == "const":
@@ -177,6 +161,46 @@ def r4(ctx: Ctx) -> None:
         except Unrecognised:
             nf = None
         ctx.check(nf == ("<=0", "1*1 + -1*now + placed_at + ttl"), f, f.node, "Order.is_expired boundary", "placed_at + ttl < time", str(nf))
+
+
+def _expiry_filters(ctx: Ctx, qual: str) -> List[Tuple[str, Term]]:
+    """conditions under which a bucket of expire_time_list is selected for reaping"""
+    from ..terms import normalise
+
+    out: List[Tuple[str, Term]] = []
+    seen = set()
+
+    def over_buckets(it: Term) -> bool:
+        k = key(strip_ver(it))
+        return k.startswith("self.expire_time_list")
+
+    def from_term(t: Term) -> None:
+        for s_ in subterms(normalise(strip_ver(t))):
+            if s_[0] == "comp":
+                for g in s_[3]:
+                    if over_buckets(g[1]):
+                        for c in g[2]:
+                            if key(c) not in seen and "self.time" in key(c):
+                                seen.add(key(c))
+                                out.append((f"comprehension `{key(s_[2])[:30]}`", c))
+
+    for p in ctx.paths(qual):
+        for e in p.walk_events(True):
+            if e.kind == "call":
+                from_term(e.term)
+            if e.kind == "loop" and e.iter is not None:
+                from_term(e.iter)
+                if over_buckets(e.iter):
+                    for bp in e.paths:
+                        collects = [x for x in bp.events if x.kind == "call" and x.name in ("append", "extend", "pop", "remove")]
+                        for c, pol, _ in bp.conds:
+                            c = strip_ver(c)
+                            if "self.time" in key(c) and collects:
+                                cc = c if pol else ("not", c)
+                                if key(cc) not in seen:
+                                    seen.add(key(cc))
+                                    out.append(("loop over the buckets", cc))
+    return out
 
 
 def _new_bucket(p: Path, e: Event) -> Optional[Term]:
@@ -266,28 +290,39 @@ def r6(ctx: Ctx) -> None:
         if p.exit[0] != "return":
             continue
         lps = loops(p)
-        if not lps:
-            continue
-        order_loops = [l for l in lps if any(c.name == "remove" and c.recv is not None and key(strip_ver(c.recv)).endswith("priority_queue") for bp in l.paths for c in calls(bp))]
-        key_loops = [l for l in lps if any((c.name == "pop" and c.recv is not None and key(strip_ver(c.recv)).endswith("expire_time_list")) for bp in l.paths for c in calls(bp)) or any(e.kind == "del" for bp in l.paths for e in bp.events)]
-        ok = len(order_loops) == 1 and len(key_loops) == 1
-        detail = f"{len(order_loops)} order loop(s), {len(key_loops)} bucket loop(s)"
+        rm_loops = []
+        key_loops = []
+        for l in lps:
+            el = ("sym", f"{l.target[0]}∈{l.loopid}") if l.target else None
+            for bp in l.paths:
+                for c in calls(bp, into_loops=False):
+                    if c.name == "remove" and c.recv is not None and key(strip_ver(c.recv)).endswith("priority_queue"):
+                        rm_loops.append((l, bp, c, el))
+                    if c.name == "pop" and c.recv is not None and key(strip_ver(c.recv)).endswith("expire_time_list"):
+                        key_loops.append((l, bp, c, el))
+                for e in bp.events:
+                    if e.kind == "del" and key(strip_ver(e.base)).endswith("expire_time_list"):
+                        key_loops.append((l, bp, e, el))
+        if not rm_loops and not key_loops:
+            continue  # the `nothing expired` path
+        ok = len({id(x[0]) for x in rm_loops}) == 1 and len({id(x[0]) for x in key_loops}) == 1
+        detail = f"{len({id(x[0]) for x in rm_loops})} order loop(s), {len({id(x[0]) for x in key_loops})} bucket loop(s)"
         if ok:
-            ol, kl = order_loops[0], key_loops[0]
-            el = ("sym", f"{ol.target[0]}∈{ol.loopid}")
+            ol = rm_loops[0][0]
+            el = rm_loops[0][3]
             for bp in ol.paths:
-                rm = [c for c in calls(bp) if c.name == "remove" and c.args and c.args[0] == el]
+                rm = [c for c in calls(bp) if c.name == "remove" and c.args and c.args[0] == el and key(strip_ver(c.recv)).endswith("priority_queue")]
                 lg = [c for c in calls(bp) if c.site.how == "ctor" and c.name == "ExpirationLog"]
                 if len(rm) != 1 or len(lg) != 1 or bp.conds or bp.exit[0] != "fall":
                     ok = False
                     detail = f"per expired order: {len(rm)} removal(s), {len(lg)} record(s), conditions={len(bp.conds)}"
-            kel = ("sym", f"{kl.target[0]}∈{kl.loopid}")
+            kl = key_loops[0][0]
+            kel = key_loops[0][3]
             for bp in kl.paths:
-                pp = [c for c in calls(bp) if c.name == "pop" and c.args and c.args[0] == kel]
+                pp = [c for c in calls(bp) if c.name == "pop" and c.args and c.args[0] == kel] + [e for e in bp.events if e.kind == "del" and e.index == kel]
                 if len(pp) != 1 or bp.conds:
                     ok = False
                     detail = f"per expired bucket: {len(pp)} pop(s)"
-            # the list of logs returned is the list the records were appended to
         ctx.check(ok, f, f.node, "reaper: one removal and one record per expired order, one pop per expired bucket", "for o in expired: log+remove(o); for k in expired keys: pop(k)", detail)
 
 
@@ -341,28 +376,20 @@ def r7(ctx: Ctx) -> None:
 
 def _owner_checked(p: Path, batch: Term, agent: Term) -> bool:
     """Does the path carry a decision that implies every element of `batch` has
-    agent_id == agent.agent_id?  Accepted idioms: sum([o.agent_id != a.agent_id ...]) > 0,
-    any(o.agent_id != a.agent_id ...) decided false; all(o.agent_id == a.agent_id ...) decided true."""
+    agent_id == agent.agent_id?  (any / all / sum(...) > 0 spellings share one canonical form.)"""
+    from ..kit import forall_pred
+
     for c, pol, _ in p.conds:
-        c = strip_ver(c)
-        inner = None
-        want_op = None
-        if c[0] == "cmp" and c[1] == "<" and c[2] == ("const", 0) and c[3][0] == "call" and key(c[3][1]) == "sum" and not pol:
-            inner, want_op = c[3][2][0] if c[3][2] else None, "!="
-        elif c[0] == "call" and key(c[1]) == "any" and not pol:
-            inner, want_op = c[2][0] if c[2] else None, "!="
-        elif c[0] == "call" and key(c[1]) == "all" and pol:
-            inner, want_op = c[2][0] if c[2] else None, "=="
-        if inner is None or inner[0] != "comp" or len(inner[3]) != 1:
+        fa = forall_pred(c, pol)
+        if fa is None:
             continue
-        names, it, conds = inner[3][0]
-        if conds or strip_ver(it) != strip_ver(batch) or len(names) != 1:
+        pred, gens = fa
+        if len(gens) != 1 or gens[0][2] or len(gens[0][0]) != 1 or strip_ver(gens[0][1]) != strip_ver(batch):
             continue
-        elt = inner[2]
-        if elt[0] != "cmp" or elt[1] != want_op:
+        if pred[0] != "cmp" or pred[1] != "==":
             continue
-        sides = {key(elt[2]), key(elt[3])}
-        if sides == {f"{names[0]}.agent_id", f"{key(strip_ver(agent))}.agent_id"}:
+        sides = {key(pred[2]), key(pred[3])}
+        if sides == {f"{gens[0][0][0]}.agent_id", f"{key(strip_ver(agent))}.agent_id"}:
             return True
     return False
 
